@@ -137,16 +137,15 @@ func genC16(x *Ctx) *c16Scen {
 	}
 	sc.Default = []string{"", "application/json", "application/xml"}[tp.G(3)]
 	sc.Preempt = []int{200, 50, 500}[tp.G(3)]
-	nClients := 1 + tp.G(2)
+	nClients := 2
 	maxReq, maxSize := 5, 600
 	if x.Thorough() {
 		maxReq, maxSize = 12, 20000
 	}
 	id := 0
-	for c := 0; c < nClients; c++ {
+	tp.Repeat(1, nClients, 500, func(int) {
 		var reqs []*c16Req
-		n := tp.Range(2, maxReq)
-		for i := 0; i < n; i++ {
+		tp.Repeat(2, maxReq, 600, func(int) {
 			id++
 			r := &c16Req{ID: id}
 			r.Codec = []string{"json", "xml"}[tp.G(2)]
@@ -161,9 +160,9 @@ func genC16(x *Ctx) *c16Scen {
 				r.FaultAt = tp.G(1000)
 			}
 			reqs = append(reqs, r)
-		}
+		})
 		sc.Clients = append(sc.Clients, reqs)
-	}
+	})
 	return sc
 }
 
